@@ -50,6 +50,7 @@ type builder struct {
 	engine  string
 	sites   int
 	nfiles  int
+	tools   map[string]string // tool name -> test binary (CLI checks)
 }
 
 func run(dir string, extraEnv []string, name string, args ...string) ([]byte, error) {
@@ -91,8 +92,62 @@ func build(cli bool) *builder {
 	if out, err := run(sim, nil, goBin, "test", "-c", "-vet=off", "-overlay", filepath.Join(gen, "overlay.json"), "-o", b.engine, "./engine"); err != nil {
 		die(2, "build engine (does /repo compile?): %v\n%s", err, out)
 	}
+	b.tools = map[string]string{}
+	if cli {
+		// one test binary per command-line tool: the overlay adds a test file to its package main
+		raw, _ := os.ReadFile(filepath.Join(gen, "overlay.json"))
+		var ov struct{ Replace map[string]string }
+		json.Unmarshal(raw, &ov)
+		for _, tool := range cliTools {
+			src := filepath.Join(gen, "zz_verif_"+tool+"_test.go")
+			os.WriteFile(src, []byte(fmt.Sprintf(cliTestFile, tool)), 0644)
+			ov.Replace[filepath.Join(repoDir, "cmd", tool, "zz_verif_cli_test.go")] = src
+		}
+		jb, _ := json.MarshalIndent(ov, "", " ")
+		ovp := filepath.Join(gen, "overlay-cli.json")
+		os.WriteFile(ovp, jb, 0644)
+		var wg sync.WaitGroup
+		var mu sync.Mutex
+		var failed string
+		for _, tool := range cliTools {
+			wg.Add(1)
+			go func(tool string) {
+				defer wg.Done()
+				bin := filepath.Join(scratch, tool+".test")
+				if out, err := run(sim, nil, goBin, "test", "-c", "-vet=off", "-overlay", ovp, "-o", bin, "github.com/energomonitor/bisquitt/cmd/"+tool); err != nil {
+					mu.Lock()
+					failed = fmt.Sprintf("build %s test binary: %v\n%s", tool, err, out)
+					mu.Unlock()
+				}
+				mu.Lock()
+				b.tools[tool] = bin
+				mu.Unlock()
+			}(tool)
+		}
+		wg.Wait()
+		if failed != "" {
+			die(2, "%s", failed)
+		}
+	}
 	return b
 }
+
+var cliTools = []string{"bisquitt", "bisquitt-pub", "bisquitt-sub"}
+
+const cliTestFile = `package main
+
+import (
+	"testing"
+
+	"verifsim/world"
+)
+
+func TestWorker(t *testing.T) {
+	world.CLITool = %q
+	world.CLIRun = func(args []string) error { return Application.Run(args) }
+	world.WorkerMain(t)
+}
+`
 
 func (b *builder) cleanup() { os.RemoveAll(b.scratch) }
 
@@ -169,10 +224,14 @@ func crashSignature(stderr string) (string, bool) {
 
 // runWorker runs idxs in one worker process, restarting after crashes.
 func runWorker(b *builder, prop, tier string, base uint64, idxs []int, wid int) *workerResult {
-	return runWorkerGMP(b, prop, tier, base, idxs, wid, "1")
+	return runWorkerBin(b, b.engine, prop, tier, base, idxs, wid, "1")
 }
 
 func runWorkerGMP(b *builder, prop, tier string, base uint64, idxs []int, wid int, gmp string) *workerResult {
+	return runWorkerBin(b, b.engine, prop, tier, base, idxs, wid, gmp)
+}
+
+func runWorkerBin(b *builder, bin, prop, tier string, base uint64, idxs []int, wid int, gmp string) *workerResult {
 	res := &workerResult{}
 	remaining := idxs
 	for len(remaining) > 0 {
@@ -180,8 +239,8 @@ func runWorkerGMP(b *builder, prop, tier string, base uint64, idxs []int, wid in
 		jb, _ := json.Marshal(job)
 		jp := filepath.Join(b.scratch, fmt.Sprintf("job-%d-%d.json", wid, len(remaining)))
 		os.WriteFile(jp, jb, 0644)
-		cmd := exec.Command(b.engine, "-test.run", "^TestWorker$", "-test.timeout", "6h")
-		cmd.Env = append(env(), "VERIF_JOB="+jp, "GOMAXPROCS="+gmp)
+		cmd := exec.Command(bin, "-test.run", "^TestWorker$", "-test.timeout", "6h")
+		cmd.Env = append(env(), "VERIF_JOB="+jp, "GOMAXPROCS="+gmp, "GODEBUG=asyncpreemptoff=1")
 		cmd.Dir = b.scratch
 		var stderr bytes.Buffer
 		cmd.Stderr = &stderr
@@ -204,6 +263,7 @@ func runWorkerGMP(b *builder, prop, tier string, base uint64, idxs []int, wid in
 		done := map[int]bool{}
 		finished := false
 		hung := false
+		yielded := false
 	loop:
 		for {
 			select {
@@ -227,6 +287,8 @@ func runWorkerGMP(b *builder, prop, tier string, base uint64, idxs []int, wid in
 					cur = -1
 				case l == "WORKER-DONE":
 					finished = true
+				case l == "WORKER-YIELD":
+					yielded = true
 				}
 			case <-time.After(120 * time.Second):
 				hung = true
@@ -241,6 +303,17 @@ func runWorkerGMP(b *builder, prop, tier string, base uint64, idxs []int, wid in
 		if hung {
 			res.infra = fmt.Sprintf("watchdog: worker %d produced nothing for 120 s (idx %d)", wid, cur)
 			return res
+		}
+		if yielded {
+			// one process per run (CLI tools keep state in package-level variables): continue with the rest
+			var next []int
+			for _, i := range remaining {
+				if !done[i] {
+					next = append(next, i)
+				}
+			}
+			remaining = next
+			continue
 		}
 		// crashed while running `cur`
 		if cur < 0 {
@@ -279,8 +352,12 @@ func runPlan(b *builder, mode string, prop string, plan *world.Plan, sig, out st
 	h := sha256.Sum256(jb)
 	jp := filepath.Join(b.scratch, fmt.Sprintf("plan-%x.json", h[:6]))
 	os.WriteFile(jp, jb, 0644)
-	cmd := exec.Command(b.engine, "-test.run", "^TestWorker$", "-test.timeout", "20m")
-	cmd.Env = append(env(), "VERIF_JOB="+jp, "GOMAXPROCS=1")
+	bin := b.engine
+	if plan != nil && plan.CLI != nil && b.tools[plan.CLI.Tool] != "" {
+		bin = b.tools[plan.CLI.Tool]
+	}
+	cmd := exec.Command(bin, "-test.run", "^TestWorker$", "-test.timeout", "20m")
+	cmd.Env = append(env(), "VERIF_JOB="+jp, "GOMAXPROCS=1", "GODEBUG=asyncpreemptoff=1")
 	cmd.Dir = b.scratch
 	var stderr, stdout bytes.Buffer
 	cmd.Stderr = &stderr
@@ -372,13 +449,18 @@ func checkMain(prop, tier string) int {
 	if v := os.Getenv("VERIF_RUNS"); v != "" {
 		nruns, _ = strconv.Atoi(v)
 	}
-	b := build(false)
+	b := build(c.CLI)
 	defer b.cleanup()
 	buildS := time.Since(t0).Seconds()
 
-	P := runtime.NumCPU()
-	if P > 16 {
-		P = 16
+	// leave two cores free: an OS thread that is descheduled for >10 ms looks like a long-running
+	// goroutine to the Go runtime, which then forces a preemption (a legal but unrepeatable schedule)
+	P := runtime.NumCPU() - 2
+	if P > 14 {
+		P = 14
+	}
+	if P < 1 {
+		P = 1
 	}
 	if v := os.Getenv("VERIF_WORKERS"); v != "" {
 		P, _ = strconv.Atoi(v)
@@ -400,9 +482,53 @@ func checkMain(prop, tier string) int {
 	}
 	results := make([]*workerResult, P+1)
 	var wg sync.WaitGroup
+	bins := make([]string, P)
+	if c.CLI {
+		// a worker runs one tool's binary: partition the indices by the tool their plan names
+		byTool := map[string][]int{}
+		for i := 0; i < nruns; i++ {
+			tool := ""
+			if pl := world.PlanFor(c, tier, base, i); pl != nil && pl.CLI != nil {
+				tool = pl.CLI.Tool
+			}
+			byTool[tool] = append(byTool[tool], i)
+		}
+		parts = make([][]int, P)
+		w := 0
+		for _, tool := range append([]string{""}, cliTools...) {
+			l := byTool[tool]
+			if len(l) == 0 {
+				continue
+			}
+			share := (P*len(l) + nruns - 1) / nruns
+			if share < 1 {
+				share = 1
+			}
+			for k := 0; k < share && w < P; k++ {
+				bins[w] = b.tools[tool]
+				for j := k; j < len(l); j += share {
+					parts[w] = append(parts[w], l[j])
+				}
+				w++
+			}
+			if w >= P {
+				// out of workers: put the rest on the last worker of this tool... (cannot happen with P >= 4)
+			}
+		}
+	}
 	for w := 0; w < P; w++ {
 		wg.Add(1)
-		go func(w int) { defer wg.Done(); results[w] = runWorker(b, prop, tier, base, parts[w], w) }(w)
+		go func(w int) {
+			defer wg.Done()
+			bin := b.engine
+			if bins[w] != "" {
+				bin = bins[w]
+			}
+			results[w] = runWorkerBin(b, bin, prop, tier, base, parts[w], w, "1")
+		}(w)
+	}
+	if c.CLI {
+		dup = nil // the determinism sample would need the right tool binary per index; CLI runs are single-threaded scripts
 	}
 	wg.Add(1)
 	go func() { defer wg.Done(); results[P] = runWorker(b, prop, tier, base, dup, P) }()
@@ -752,6 +878,12 @@ func main() {
 		os.Exit(replayMain(os.Args[2]))
 	case "selftest":
 		os.Exit(selftest())
+	case "build":
+		// setup: warm the Go build cache (runner, instrumenter, engine and the three CLI test binaries)
+		b := build(true)
+		b.cleanup()
+		fmt.Println("build ok")
+		os.Exit(0)
 	default:
 		tier := os.Getenv("VERIF_TIER")
 		if len(os.Args) > 2 {
